@@ -4,6 +4,10 @@
 import json, sys
 pid, wt = sys.argv[1], sys.argv[2]
 n = int(sys.argv[3]) if len(sys.argv) > 3 else 3
+wide = len(sys.argv) > 4 and sys.argv[4] == "wide"
+WIDE = """
+Site selection for this round: at least two of the changes must sit OUTSIDE the functions named under anchors.mechanism of the property - in callers, helpers, other transports or configuration paths, rarely used API variants, error/cleanup paths, or code that only runs with a non-default setting (block modes, session limits, keepalive, multicast, proxy, extended tokens, Q-Block, persistence options, logging level) - but must still make the property's statement false.
+""" if wide else ""
 prop = [json.loads(l) for l in open("/verif/properties.jsonl") if json.loads(l)["id"] == pid][0]
 print(f"""You are helping to test a verification effort by seeding realistic bugs. You have your own scratch git worktree of the C library obgm/libcoap (CoAP protocol implementation) at {wt} . Work ONLY inside {wt} (never touch /repo or /verif, and do not read anything under /verif).
 
@@ -18,6 +22,7 @@ Task: produce {n} DIFFERENT, independent changes to the library source (each rel
   (c) looks like a realistic mistake or plausible refactoring slip a maintainer could make (an off-by-one at an encoding boundary, a dropped or weakened check, a wrong state update on a rare path, a changed order of two steps, two sites that are each fine alone but wrong together) — NOT something ordinary use would expose at once (a change that breaks every message is useless). Prefer changes that need something specific to manifest: a particular boundary value, an unusual but legal input, a multi-step sequence, a particular interleaving or fault point.
   (d) comes with a demonstration: a small standalone C program (linking against the library built in your worktree: {wt}/_build/libcoap-3.a plus -lgnutls; include paths {wt}/include and {wt}/_build/include and {wt}/_build; you may include internal headers via "coap3/coap_libcoap_build.h" after adding -I{wt}/src if needed; call coap_startup() first; the library is built with thread-safe locking so use the public API) that exits 0 / prints PASS on the unchanged library and exits non-zero / prints FAIL with the change applied. Verify both directions yourself.
 
+{WIDE}
 Deliver under {wt}/seed_out/ (create it; it is not part of the library):
   m1/patch.diff (output of `git diff` for change 1 against clean HEAD, source files only), m1/demo.c, m1/build_and_run.sh (builds the demo against the worktree's library and runs it), m1/README.md (which part of the property it breaks, what specific input/sequence is needed for it to manifest, what you ran and observed with and without the change); likewise m2/, m3/ ...
 After producing each patch, restore the source tree (`git checkout -- src include`) before starting the next one, so every patch applies to the clean HEAD on its own. Leave the worktree's source clean at the end (only seed_out/ and _build/ extra).
